@@ -747,4 +747,23 @@ theorem IMap.nodup_foldl_set {V : Type} (l : List (Nat × V)) (m : List (Nat × 
   | cons hd t ih => exact ih _ (IMap.nodup_set m hd.1 hd.2 h)
 
 
+
+section
+variable {K W A : Type} [DecidableEq K]
+theorem IMap.forall_foldl_set (P : W → Prop) (l : List (K × A)) (g : A → W) (m0 : List (K × W))
+    (h0 : ∀ x ∈ m0, P x.2) (hg : ∀ a, P (g a)) :
+    ∀ x ∈ l.foldl (fun m x => IMap.set m x.1 (g x.2)) m0, P x.2 := by
+  induction l generalizing m0 with
+  | nil => exact h0
+  | cons hd t ih =>
+    apply ih
+    exact IMap.forall_set (fun _ w => P w) m0 hd.1 (g hd.2) h0 (hg hd.2)
+
+theorem IMap.nodup_foldl_set_g (l : List (K × A)) (g : A → W) (m0 : List (K × W)) (h0 : IMap.Nodup m0) :
+    IMap.Nodup (l.foldl (fun m x => IMap.set m x.1 (g x.2)) m0) := by
+  induction l generalizing m0 with
+  | nil => exact h0
+  | cons hd t ih => exact ih _ (IMap.nodup_set m0 hd.1 (g hd.2) h0)
+end
+
 end Radix.KV
